@@ -233,6 +233,60 @@ func (r *rawEnd) readUnit() (u parsedUnit, ok bool, err error) {
 	return u, true, nil
 }
 
+// cutPoints chooses where a raw peer cuts an envelope of n bytes into `parts` segments (each at most 131071 bytes). The
+// shapes cycle with the variant: evenly; inside the 9-byte envelope header; exactly at its end; one byte before the end
+// of the envelope; first segment full; an uneven first cut. A shape that does not fit the size falls back to even cuts.
+const maxSegPayload = 131071
+
+var cutShapes = []string{"even", "hdr", "hdr9", "tail1", "maxfirst", "uneven"}
+
+func cutPoints(n, parts, variant int) []int {
+	even := func() []int {
+		c := []int{0}
+		for k := 1; k < parts; k++ {
+			c = append(c, n*k/parts)
+		}
+		return append(c, n)
+	}
+	var c []int
+	first := -1
+	switch cutShapes[variant%len(cutShapes)] {
+	case "hdr":
+		first = 1 + (variant/len(cutShapes))%8
+	case "hdr9":
+		first = 9
+	case "uneven":
+		first = 100000 + variant%1000
+	case "maxfirst":
+		first = maxSegPayload
+	case "tail1":
+		if parts == 2 {
+			c = []int{0, n - 1, n}
+		} else {
+			c = []int{0, (n - 1) / 2, n - 1, n}
+		}
+	}
+	if first > 0 && first < n-parts {
+		if parts == 2 {
+			c = []int{0, first, n}
+		} else {
+			rest := n - first
+			c = []int{0, first, first + (rest+1)/2, n}
+			if rest > maxSegPayload {
+				c = []int{0, first, first + maxSegPayload, n}
+			}
+		}
+	}
+	ok := c != nil
+	for i := 1; ok && i < len(c); i++ {
+		ok = c[i] > c[i-1] && c[i]-c[i-1] <= maxSegPayload
+	}
+	if !ok {
+		return even()
+	}
+	return c
+}
+
 // ---------------------------------------------------------------------------------------------- frames of a session
 
 func connRequest(v primitive.ProtocolVersion, id int, big bool, variant int) *frame.Frame {
@@ -241,6 +295,10 @@ func connRequest(v primitive.ProtocolVersion, id int, big bool, variant int) *fr
 		q += " /* " + strings.Repeat("x", 200000+id) + " */"
 	}
 	var msg message.Message
+	if !big && variant%7 == 3 {
+		// answered by READY: the one message that is unframed during the handshake and framed afterwards
+		return frame.NewFrame(v, int16(id), &message.Register{EventTypes: []primitive.EventType{primitive.EventTypeSchemaChange, primitive.EventTypeStatusChange}})
+	}
 	switch variant % 3 {
 	case 0:
 		msg = &message.Query{Query: q, Options: &message.QueryOptions{Consistency: primitive.ConsistencyLevelOne, PositionalValues: []*primitive.Value{primitive.NewValue([]byte{byte(id)})}}}
@@ -265,6 +323,9 @@ func connResponse(v primitive.ProtocolVersion, streamId int16, id int, big bool,
 		n = 11000
 	}
 	var msg message.Message
+	if !big && variant%7 == 3 {
+		return frame.NewFrame(v, streamId, &message.Ready{})
+	}
 	switch variant % 3 {
 	case 0:
 		rows := message.RowSet{}
@@ -404,16 +465,7 @@ func runConnSession(t *testing.T, cfg connConfig, sess connSession, v primitive.
 					var p struct{ Id, I, N int }
 					_ = json.Unmarshal(u.Envs[0], &p)
 					b, _ := r.envelopeBytes(frames[p.Id])
-					// cut points: the first part may end inside the 9-byte header region + a little, parts <= 131071 bytes
-					cuts := []int{0}
-					for k := 1; k < p.N; k++ {
-						c := len(b) * k / p.N
-						if k == 1 && p.N == 2 && variant%3 == 0 && len(b) > 110000+variant && len(b)-(100000+variant) < 131071*(p.N-1) {
-							c = 100000 + variant // an uneven first cut
-						}
-						cuts = append(cuts, c)
-					}
-					cuts = append(cuts, len(b))
+					cuts := cutPoints(len(b), p.N, variant+p.Id)
 					seg := b[cuts[p.I-1]:cuts[p.I]]
 					if len(seg) > 131071 {
 						t.Fatalf("harness: part of %d bytes", len(seg))
@@ -709,6 +761,9 @@ func runConnSession(t *testing.T, cfg connConfig, sess connSession, v primitive.
 						if variant%2 == 0 {
 							f.Header.StreamId = 0 // managed stream id
 						}
+						if (variant+id)%3 != 0 && (comp != primitive.CompressionNone || cfg.Modern) {
+							f.SetCompress(true) // the caller asks for compression: a matter of the hop, never of a segment's envelopes
+						}
 						r, err := cl.Send(f)
 						if err != nil {
 							bad("client-send", fmt.Sprintf("step %d: Send(request %d): %v", si, id, err))
@@ -770,7 +825,11 @@ func runConnSession(t *testing.T, cfg connConfig, sess connSession, v primitive.
 				}
 				if sv != nil {
 					for _, id := range st.Ids {
-						if err := sv.Send(rspFrames[id].DeepCopy()); err != nil {
+						out := rspFrames[id].DeepCopy()
+						if (variant+id)%3 != 1 && (comp != primitive.CompressionNone || cfg.Modern) {
+							out.SetCompress(true)
+						}
+						if err := sv.Send(out); err != nil {
 							bad("server-send", fmt.Sprintf("step %d: Send(response %d): %v", si, id, err))
 						}
 					}
